@@ -19,40 +19,42 @@ type decoder struct {
 	name string
 	// load decodes body; canon re-encodes the decoded value when load succeeded
 	load func(body []byte) (canon []byte, err error)
+	// extra is the size of further input the call reads (the manifest a COMPLETE marker is checked against)
+	extra int
 }
 
 func (w *world) decoders() map[string]decoder {
 	manifestBody := w.pub.objects[w.root+"manifest.json"].body
 	return map[string]decoder{
-		"archive": {"archive", func(b []byte) ([]byte, error) {
+		"archive": {name: "archive", load: func(b []byte) ([]byte, error) {
 			m, err := backup.LoadArchiveManifest(b)
 			if err != nil {
 				return nil, err
 			}
 			return backup.MarshalArchiveManifest(m)
 		}},
-		"slot": {"slot", func(b []byte) ([]byte, error) {
+		"slot": {name: "slot", load: func(b []byte) ([]byte, error) {
 			m, err := backup.LoadSlotManifest(b)
 			if err != nil {
 				return nil, err
 			}
 			return backup.MarshalSlotManifest(m)
 		}},
-		"marker": {"marker", func(b []byte) ([]byte, error) {
+		"marker": {name: "marker", extra: len(manifestBody), load: func(b []byte) ([]byte, error) {
 			m, err := backup.LoadCompleteMarker(b, manifestBody)
 			if err != nil {
 				return nil, err
 			}
 			return backup.MarshalCompleteMarker(m)
 		}},
-		"msgchunks": {"msgchunks", func(b []byte) ([]byte, error) {
+		"msgchunks": {name: "msgchunks", load: func(b []byte) ([]byte, error) {
 			m, err := backup.LoadMessageChunkManifest(b)
 			if err != nil {
 				return nil, err
 			}
 			return backup.MarshalMessageChunkManifest(m)
 		}},
-		"repository": {"repository", func(b []byte) ([]byte, error) {
+		"repository": {name: "repository", load: func(b []byte) ([]byte, error) {
 			m, err := backup.LoadRepositoryMarker(b)
 			if err != nil {
 				return nil, err
@@ -76,7 +78,7 @@ func (w *world) decode(d decoder, body []byte, original []byte, mustFail bool, w
 	canon, err := d.load(body)
 	runtime.ReadMemStats(&after)
 	alloc := after.TotalAlloc - before.TotalAlloc
-	bound := uint64(allocSlack + allocPerByte*len(body))
+	bound := uint64(allocSlack + allocPerByte*(len(body)+d.extra))
 	if alloc > bound {
 		w.fail("decoder-allocation-unbounded", d.name, "%s decoder allocated %d bytes for a %d-byte input (%s), bound %d", d.name, alloc, len(body), what, bound)
 		return
